@@ -32,7 +32,7 @@ RULE = ("case = (format, n_frames, entry point, stride, chunk, skip, atom subset
 WORKERS = {"quick": 8, "thorough": 16}
 BUDGET = {"quick": 90, "thorough": 1500}
 EXHAUSTIVE = {"quick": False, "thorough": True}
-FMTS = ["h5", "xtc", "xtc9", "trr", "dcd", "dcd0", "dcd4", "dcdfix", "nc", "dtr", "mdcrd", "mdcrd-nobox", "xyz", "xyz-foreign", "xyz.gz", "lammpstrj", "gro", "pdb", "pdb.gz"]
+FMTS = ["h5", "xtc", "xtc9", "trr", "dcd", "dcd0", "dcd4", "dcdfix", "trr-double", "trr-vf", "nc", "dtr", "mdcrd", "mdcrd-nobox", "xyz", "xyz-foreign", "xyz.gz", "lammpstrj", "gro", "pdb", "pdb.gz"]
 # dcd0 / dcd4: DCD files as other programs write them (stale header count; CHARMM 4-dimensional), see vlib/gen/files.py
 SUBSETS = {0: None, 1: [0, 2, 3], 2: [1], 3: [0, 1, 2, 3, 4, 5]}
 # ai == 4: a seeded random strictly increasing subset of 4..6 atoms (irregular gaps; readers may special-case regular ones)
@@ -64,7 +64,7 @@ GROUPS = {"quick": [dict(name="asan-hazard", flavour="asan", workers=1), dict(na
 
 
 def _hazard(c):
-    return c["fmt"] == "trr" and c.get("stride", 1) > 1 and c.get("ai", 0) != 0 and c["op"] in ("iterload", "load", "list")
+    return c["fmt"] in ("trr", "trr-double", "trr-vf") and c.get("stride", 1) > 1 and c.get("ai", 0) != 0 and c["op"] in ("iterload", "load", "list")
 
 
 def _grouped(gen):
@@ -75,7 +75,7 @@ def _grouped(gen):
         else:
             yield c
             # a thin slice of every native-reader case also rides in the sanitizer build
-            if c["fmt"] in ("xtc", "xtc9", "trr", "dcd", "dcd0", "dcd4", "dcdfix", "dtr") and c["i"] % 6 == 0:
+            if c["fmt"] in ("xtc", "xtc9", "trr", "trr-double", "trr-vf", "dcd", "dcd0", "dcd4", "dcdfix", "dtr") and c["i"] % 6 == 0:
                 d = dict(c)
                 d["group"] = "asan"
                 yield d
@@ -193,7 +193,7 @@ def _file_for(fmt, n, f0=0):
     key = (fmt, n, f0)
     if key in _CACHE:
         return _CACHE[key]
-    ext = {"xtc9": "xtc", "dcd0": "dcd", "dcd4": "dcd", "dcdfix": "dcd", "mdcrd-nobox": "mdcrd", "xyz-foreign": "xyz"}.get(fmt, fmt)
+    ext = {"xtc9": "xtc", "dcd0": "dcd", "dcd4": "dcd", "dcdfix": "dcd", "trr-double": "trr", "trr-vf": "trr", "mdcrd-nobox": "mdcrd", "xyz-foreign": "xyz"}.get(fmt, fmt)
     na = 6 if fmt == "xtc9" else 12
     cell = "ortho" if files.FORMATS[ext]["cell"] and fmt not in ("dcd4", "dcdfix", "mdcrd-nobox") else None
     t = files.ident_traj(n, na, cell=cell, f0=f0)
@@ -209,6 +209,8 @@ def _file_for(fmt, n, f0=0):
     elif fmt == "dcdfix":
         os.rename(path, path + ".all")
         files.dcd_make_fixed(path + ".all", path, na, n)
+    elif fmt in ("trr-double", "trr-vf"):
+        files.trr_write_foreign(path, t.xyz, t.unitcell_vectors, t.time, double=(fmt == "trr-double"), velocities=True, forces=True)
     kw = files.load_kwargs(ext, t.topology)
     full = md.load(path, **kw)
     f, a = files.identify(full.xyz)
@@ -372,7 +374,8 @@ def _run_case(case, ctx):
         fsel = np.arange(n)[skip::s]
         m = len(fsel)
         bound = (1 if chunk == 0 else math.ceil(m / chunk)) + 2
-        kf = "xtc" if fmt == "xtc9" else fmt  # same reader; the 9-atom threshold only changes the frame encoding
+        # same reader: the 9-atom threshold only changes the frame encoding, precision / extra blocks only the frame size
+        kf = {"xtc9": "xtc", "trr-double": "trr", "trr-vf": "trr"}.get(fmt, fmt)
         tag = f"{kf}:iterload(chunk=0)" if chunk == 0 else f"{kf}:iterload"
         what = f"md.iterload({fmt}, n={n}, chunk={chunk}, stride={s}, skip={skip}, atom_indices={idx})"
         try:
